@@ -7,9 +7,14 @@ import (
 	. "verif/harness/vhlib"
 )
 
+var registerMore func(Suites)
+
 func Register(s Suites) {
 	s.Add("C04", runC04)
 	s.Add("C19", runC19)
+	if registerMore != nil {
+		registerMore(s)
+	}
 }
 
 func pow2(r *Rand, lo, hi int) int { // power of two between 2^lo and 2^hi
